@@ -28,7 +28,15 @@ ASSUMPTIONS = [
     "stored objects stay valid and lie outside the maintenance zone during a sequence (expiry is C12); a data provider is registered",
     "when no object matches, no notification is expected (also for multiplicity 0); the first notification of a subscription is "
     "required once the interval has passed since the subscription was made and tolerated earlier",
-    "the periodic attendance of LDMServiceThreads is represented by explicit calls of attend_subscriptions(); threads are C16",
+    "the periodic attendance of LDMServiceThreads is represented by explicit calls of attend_subscriptions() and, in the cases "
+    "of the audit round, by the real loop subscriptions_service() run round by round: threading.Thread / Event are replaced "
+    "inside ldm_service_threads, the wait of a round advances the virtual clock by the timeout the loop asks for; a wait of more "
+    "than one second between two attendances is reported (the notification interval has one-second resolution); real threads "
+    "are C16",
+    "cases on the threaded service and cases that update stored objects are checked by the property oracle only (the model "
+    "describes the reactive service and has no update operation)",
+    "the subscription identifier is an input of the model: the harness gives two requests one key exactly when the code does "
+    "(hash(request): equal requests; requests that differ in a reference value -1 / -2, known finding KF-C14-1)",
 ]
 EXPLANATION = ("theorems over all operation sequences: each attendance invokes exactly the callbacks of the due subscriptions "
                "(registered consumer, matching data = C13 query, multiplicity, interval at one-second resolution) with exactly "
@@ -55,6 +63,106 @@ def sub_identity(o):
     return {k: o.get(k) for k in ("aid", "types", "prio", "orders", "order_bad", "filter", "filter_bad", "nt", "mult")}
 
 
+def _norm(x, collide):
+    if isinstance(x, bool):
+        return int(x)
+    if collide and isinstance(x, int) and x == -1:
+        return -2
+    if isinstance(x, dict):
+        return {k: _norm(v, collide) for k, v in x.items()}
+    if isinstance(x, list):
+        return [_norm(v, collide) for v in x]
+    return x
+
+
+def req_identity(o):
+    """two requests that Python compares equal (True == 1, False == 0) are one and the same request"""
+    return _norm(sub_identity(o), False)
+
+
+def hash_identity(o):
+    """the equivalence under which the code hands out one subscription identifier: the identifier is hash(request),
+    and hash(-1) == hash(-2) in CPython, so requests that differ only in a reference value -1 / -2 share it
+    (audit round, known finding KF-C14-1)"""
+    return _norm(sub_identity(o), True)
+
+
+def expand_ops(case):
+    """the flat operation list the oracle and the model work on (audit round). A "periodic" operation - the loop of
+    LDMServiceThreads run for `ticks` rounds - stands for attend / advance 500 ms (/ an addition made while the loop
+    waits) per round; "factory_sub" - LDMFactory.subscribe_to_ldm - for the registration and the subscription it is
+    documented to make. Every flat operation carries src = index of the operation it comes from."""
+    out = []
+    for oi, o in enumerate(case["ops"]):
+        if o["op"] == "periodic":
+            adds = o.get("adds") or []
+            for j in range(o["ticks"]):
+                out.append({"op": "attend", "src": oi, "periodic": True})
+                out.append({"op": "advance", "ms": 500, "src": oi, "periodic": True})
+                if j < len(adds) and adds[j]:
+                    out.append(dict(adds[j], src=oi))
+        elif o["op"] == "factory_sub":
+            out.append({"op": "reg_cons", "aid": 2, "perms": [2, 16], "src": oi})
+            out.append({"op": "subscribe", "aid": 2, "types": [2, 16], "prio": None, "orders": None, "order_bad": False,
+                        "filter": {"s1": {"path": "header.stationId", "op": "!=", "ref": o["own"]}, "lop": None, "s2": None},
+                        "filter_bad": False, "nt": 1, "mult": 1, "src": oi})
+        else:
+            out.append(dict(o, src=oi))
+    return out
+
+
+def model_applies(case):
+    """the model describes the reactive service and has no update operation"""
+    return case.get("service", "Reactive") == "Reactive" and not any(o["op"] == "update" for o in expand_ops(case))
+
+
+class _FakeThread:
+    """stands in for threading.Thread inside ldm_service_threads: the loop is run by the harness, on the virtual clock"""
+
+    def __init__(self, *a, target=None, **kw):
+        self.target = target
+
+    def start(self):
+        pass
+
+    def join(self, *a):
+        pass
+
+
+class _FakeEvent:
+    def __init__(self):
+        self.flag = False
+        self.on_wait = None
+        self.polls = 0
+
+    def is_set(self):
+        self.polls += 1
+        if self.polls > 5000:
+            raise RuntimeError("the attendance loop does not wait")
+        return self.flag
+
+    def set(self):
+        self.flag = True
+
+    def clear(self):
+        self.flag = False
+
+    def wait(self, timeout=None):
+        self.polls = 0
+        if self.on_wait is None:
+            return True
+        return self.on_wait(timeout)
+
+
+class _FakeThreading:
+    Thread = _FakeThread
+    Event = _FakeEvent
+
+    def __getattr__(self, name):
+        import threading
+        return getattr(threading, name)
+
+
 # --------------------------------------------------------------------------------------------
 # implementation
 
@@ -68,100 +176,181 @@ class _Cb:
 
 
 def exec_impl(case):
+    """run the operations on a real LDM; one trace entry per operation of expand_ops(case)"""
     from flexstack.facilities.local_dynamic_map.ldm_classes import (
         RegisterDataProviderReq, RegisterDataConsumerReq, DeregisterDataConsumerReq, AddDataProviderReq,
-        DeleteDataProviderReq, SubscribeDataobjectsReq, UnsubscribeDataConsumerReq, TimestampIts, TimeValidity,
-        GeometricArea, AccessPermission, Filter, FilterStatement, ComparisonOperators, LogicalOperators,
+        DeleteDataProviderReq, UpdateDataProviderReq, SubscribeDataobjectsReq, UnsubscribeDataConsumerReq, TimestampIts,
+        TimeValidity, GeometricArea, AccessPermission, Filter, FilterStatement, ComparisonOperators, LogicalOperators,
         OrderTupleValue, OrderingDirection)
-    lut = LdmUnderTest(CFG, "Dictionary", case["t0_utc_ms"])
+    service = case.get("service", "Reactive")
+    restore = None
+    if service == "Thread":
+        import flexstack.facilities.local_dynamic_map.ldm_service_threads as st_mod
+        restore = (st_mod, st_mod.threading)
+        st_mod.threading = _FakeThreading()
+    try:
+        lut = LdmUnderTest(CFG, "Dictionary", case["t0_utc_ms"], service)
+    finally:
+        if restore:
+            restore[0].threading = restore[1]
     svc = lut.ldm.ldm_service
     for aid in (1, 2, 16):
         lut.if3.register_data_provider(RegisterDataProviderReq(aid, (AccessPermission(aid),), TimeValidity(0)))
     sink = []
-    next_cb = 0
+    st = {"next_cb": 0, "nadd": 0}
     real_ids = {}        # index of the subscribe op -> identifier returned
     key_of_real = {}     # identifier returned -> interned key of the request
     add_ids = {}         # k-th add -> identifier
     tok_pos = {}         # token -> k
-    nadd = 0
     trace = []
+
+    def snap(out, err=None, **extra):
+        calls = []
+        for cb, resp in sink:
+            pos = [tok_pos.get(d.get("dataObject", {}).get("header", {}).get("stationId"), -1) for d in resp.data_objects]
+            calls.append([cb.num if cb.num is not None else -1, pos, int(resp.application_id), int(resp.result)])
+        del sink[:]
+        subs = []
+        for s_ in svc.subscriptions:
+            rid = hash(s_.subscription_request)
+            last = svc.last_checked_subscriptions_time.get(s_)
+            subs.append([key_of_real.get(rid, -1), s_.callback.num if isinstance(s_.callback, _Cb) and s_.callback.num is not None else -1,
+                         last.timestamp_its if last is not None else -1])
+        store = [tok_pos.get(d.get("dataObject", {}).get("header", {}).get("stationId"), -1) for _, d in lut.items()]
+        e = {"out": out, "calls": calls, "subs": subs, "conss": lut.consumers(), "store": store, "err": err}
+        e.update(extra)
+        trace.append(e)
+        return e
+
+    def do_add(o):
+        req = AddDataProviderReq(2 if o["typ"] == 2 else 1 if o["typ"] == 1 else 16, TimestampIts(its_ms(VCLOCK.ms)),
+                                 make_location(413800000, 21100000, 1000, EXTRA), message(o), TimeValidity(o.get("val", 100000)))
+        r = lut.if3.add_provider_data(req)
+        nadd = st["nadd"]
+        add_ids[nadd] = r.data_object_id
+        tok_pos[o["tok"]] = nadd
+        st["nadd"] += 1
+        return [nadd if r.data_object_id is not None and r.data_object_id >= 0 else -1]
+
+    def do_subscribe(o, oi, via_factory=None):
+        def stm(x):
+            return FilterStatement(x["path"], ComparisonOperators(c13.OPS.index(x["op"])), x["ref"])
+        flt = None
+        if o["filter_bad"]:
+            flt = "not a filter"
+        elif o["filter"] is not None:
+            f = o["filter"]
+            flt = Filter(stm(f["s1"])) if f["s2"] is None else \
+                Filter(stm(f["s1"]), LogicalOperators.AND if f["lop"] == "and" else LogicalOperators.OR, stm(f["s2"]))
+        orders = None
+        if o["orders"] is not None:
+            orders = tuple(OrderTupleValue(x["name"], OrderingDirection(1 if x["desc"] else 0)) for x in o["orders"])
+        if o["order_bad"]:
+            orders = (orders or ()) + (OrderTupleValue("stationId", 2),)
+        cb = _Cb(sink)
+        if via_factory is None:
+            req = SubscribeDataobjectsReq(application_id=o["aid"], data_object_type=tuple(o["types"]), priority=o["prio"],
+                                          filter=flt, notify_time=None if o["nt"] is None else TimestampIts(o["nt"]),
+                                          multiplicity=o["mult"], order=orders)
+            r = lut.if4.subscribe_data_consumer(req, cb)
+            code, rid = int(r.result), r.subscription_id
+        else:
+            before = list(svc.subscriptions)
+            via_factory(cb)
+            new = [x for x in svc.subscriptions if not any(x is y for y in before)]
+            code, rid = (0, hash(new[-1].subscription_request)) if new else (-98, 0)
+        key = 0
+        if code == 0:
+            cb.num = st["next_cb"]
+            st["next_cb"] += 1
+            real_ids[oi] = rid
+            key = key_of_real.setdefault(rid, KEYS(hash_identity(o)))
+        return [code, key]
+
     try:
         for oi, o in enumerate(case["ops"]):
             k = o["op"]
-            out = []
+            n_before = len(trace)
+            n_want = len(expand_ops({"ops": [o]}))
             del sink[:]
-            err = None
             try:
                 if k == "reg_cons":
                     r = lut.if4.register_data_consumer(RegisterDataConsumerReq(o["aid"], tuple(o["perms"]), GeometricArea(None, None, None)))
-                    out = [int(r.result)]
+                    snap([int(r.result)])
                 elif k == "dereg_cons":
                     r = lut.if4.deregister_data_consumer(DeregisterDataConsumerReq(o["aid"]))
-                    out = [int(r.ack)]
+                    snap([int(r.ack)])
                 elif k == "subscribe":
-                    def st(s):
-                        return FilterStatement(s["path"], ComparisonOperators(c13.OPS.index(s["op"])), s["ref"])
-                    flt = None
-                    if o["filter_bad"]:
-                        flt = "not a filter"
-                    elif o["filter"] is not None:
-                        f = o["filter"]
-                        flt = Filter(st(f["s1"])) if f["s2"] is None else \
-                            Filter(st(f["s1"]), LogicalOperators.AND if f["lop"] == "and" else LogicalOperators.OR, st(f["s2"]))
-                    orders = None
-                    if o["orders"] is not None:
-                        orders = tuple(OrderTupleValue(x["name"], OrderingDirection(1 if x["desc"] else 0)) for x in o["orders"])
-                    if o["order_bad"]:
-                        orders = (orders or ()) + (OrderTupleValue("stationId", 2),)
-                    req = SubscribeDataobjectsReq(application_id=o["aid"], data_object_type=tuple(o["types"]), priority=o["prio"],
-                                                  filter=flt, notify_time=None if o["nt"] is None else TimestampIts(o["nt"]),
-                                                  multiplicity=o["mult"], order=orders)
-                    cb = _Cb(sink)
-                    r = lut.if4.subscribe_data_consumer(req, cb)
-                    code = int(r.result)
-                    key = 0
-                    if code == 0:
-                        cb.num = next_cb
-                        next_cb += 1
-                        real_ids[oi] = r.subscription_id
-                        key = key_of_real.setdefault(r.subscription_id, KEYS(sub_identity(o)))
-                    out = [code, key]
+                    snap(do_subscribe(o, oi))
+                elif k == "factory_sub":
+                    from flexstack.facilities.local_dynamic_map.factory import LDMFactory
+                    fac = LDMFactory()
+                    fac.ldm = lut.ldm
+                    flat = expand_ops({"ops": [o]})
+
+                    def via(cb):
+                        fac.subscribe_to_ldm(o["own"], GeometricArea(None, None, None), cb)
+                    # the registration and the subscription are made by one call: the entry of the registration shows
+                    # the subscriptions as they were before it and the registry as it is after it
+                    e = snap([])
+                    res = do_subscribe(flat[1], oi, via)
+                    e["out"] = [0] if 2 in lut.consumers() else [2]
+                    e["conss"] = lut.consumers()
+                    snap(res)
                 elif k == "unsubscribe":
                     rid = real_ids.get(o["sub"], 0) if o["sub"] >= 0 else 123456789
                     r = lut.if4.unsubscribe_data_consumer(UnsubscribeDataConsumerReq(o["aid"], rid))
-                    out = [int(r.result)]
+                    snap([int(r.result)])
                 elif k == "add":
-                    req = AddDataProviderReq(2 if o["typ"] == 2 else 1 if o["typ"] == 1 else 16, TimestampIts(its_ms(VCLOCK.ms)),
-                                             make_location(413800000, 21100000, 1000, EXTRA), message(o), TimeValidity(100000))
-                    r = lut.if3.add_provider_data(req)
-                    add_ids[nadd] = r.data_object_id
-                    tok_pos[o["tok"]] = nadd
-                    out = [nadd if r.data_object_id is not None and r.data_object_id >= 0 else -1]
-                    nadd += 1
+                    snap(do_add(o))
+                elif k == "update":
+                    r = lut.if3.update_provider_data(UpdateDataProviderReq(
+                        2, add_ids.get(o["k"], -7), TimestampIts(its_ms(VCLOCK.ms)),
+                        make_location(0, 0, 0, dict(smc=0, smo=0, smic=0, ac=0, radius=0, rd=0, td=0)), message(o), TimeValidity(0)))
+                    if int(r.result) == 0:
+                        tok_pos[o["tok"]] = o["k"]
+                    snap([int(r.result)])
                 elif k == "del":
                     r = lut.if3.delete_provider_data(DeleteDataProviderReq(2, add_ids.get(o["k"], -7), TimestampIts(its_ms(VCLOCK.ms))))
-                    out = [int(r.result)]
+                    snap([int(r.result)])
                 elif k == "advance":
                     VCLOCK.advance(o["ms"])
+                    snap([])
                 elif k == "attend":
                     svc.attend_subscriptions()
+                    snap([])
+                elif k == "periodic":
+                    # the loop of LDMServiceThreads, run here for `ticks` rounds; the wait of each round advances the
+                    # virtual clock by the timeout the loop asks for and makes the addition scripted for that round
+                    adds = o.get("adds") or []
+                    rnd = {"n": 0}
+                    ev = svc.stop_event
+
+                    def on_wait(timeout):
+                        j = rnd["n"]
+                        rnd["n"] += 1
+                        snap([])                                   # the attendance of this round
+                        ms = int(round((timeout or 0) * 1000))
+                        VCLOCK.advance(ms)
+                        snap([], None, adv_ms=ms)
+                        if j < len(adds) and adds[j]:
+                            snap(do_add(adds[j]))
+                        return rnd["n"] >= o["ticks"]
+                    ev.on_wait = on_wait
+                    ev.flag = False
+                    ev.polls = 0
+                    try:
+                        svc.subscriptions_service()
+                    finally:
+                        ev.on_wait = None
                 else:
                     raise ValueError(k)
             except Exception as e:
-                err = type(e).__name__ + ": " + str(e)[:100]
-                out = [-99]
-            calls = []
-            for cb, resp in sink:
-                pos = [tok_pos.get(d.get("dataObject", {}).get("header", {}).get("stationId"), -1) for d in resp.data_objects]
-                calls.append([cb.num if cb.num is not None else -1, pos, int(resp.application_id), int(resp.result)])
-            subs = []
-            for s in svc.subscriptions:
-                rid = hash(s.subscription_request)
-                last = svc.last_checked_subscriptions_time.get(s)
-                subs.append([key_of_real.get(rid, -1), s.callback.num if isinstance(s.callback, _Cb) and s.callback.num is not None else -1,
-                             last.timestamp_its if last is not None else -1])
-            store = [tok_pos.get(d.get("dataObject", {}).get("header", {}).get("stationId"), -1) for _, d in lut.items()]
-            trace.append({"out": out, "calls": calls, "subs": subs, "conss": lut.consumers(), "store": store, "err": err})
+                snap([-99], type(e).__name__ + ": " + str(e)[:100])
+            # a composite operation that ended early: the entries it still owes
+            while len(trace) - n_before < n_want:
+                snap([], None, stopped=True)
+            del trace[n_before + n_want:]
     finally:
         lut.close()
     return trace
@@ -172,7 +361,7 @@ def exec_impl(case):
 
 def record_of(o, now_its):
     return {"application_id": 2 if o["typ"] == 2 else 1 if o["typ"] == 1 else 16, "timestamp": now_its,
-            "location": location_dict(413800000, 21100000, 1000, EXTRA), "dataObject": message(o), "timeValidity": 100000}
+            "location": location_dict(413800000, 21100000, 1000, EXTRA), "dataObject": message(o), "timeValidity": o.get("val", 100000)}
 
 
 def enc_opt(v):
@@ -183,15 +372,15 @@ def encode_case(case):
     a = [its_ms(case["t0_utc_ms"])]
     now = its_ms(case["t0_utc_ms"])
     sub_keys = {}
-    for oi, o in enumerate(case["ops"]):
+    for o in expand_ops(case):
         k = o["op"]
         if k == "reg_cons":
             a += [1, o["aid"], len(o["perms"])] + list(o["perms"])
         elif k == "dereg_cons":
             a += [2, o["aid"]]
         elif k == "subscribe":
-            key = KEYS(sub_identity(o))
-            sub_keys[oi] = key
+            key = KEYS(hash_identity(o))
+            sub_keys[o["src"]] = key
             a += [3, o["aid"], key, len(o["types"])] + list(o["types"]) + enc_opt(o["prio"])
             orders = o["orders"] or []
             a += [0 if o["order_bad"] else 1, len(orders)]
@@ -251,21 +440,35 @@ def oracle(case, trace):
     store = []           # (k, record)
     nadd = 0
     last_attend = now
-    sub_cb = {}          # index of subscribe op -> cb
+    sub_cb = {}          # index of subscribe op (in case["ops"]) -> cb
+    sub_op = {}          # index of subscribe op (in case["ops"]) -> the flat subscribe operation
+    reactive = case.get("service", "Reactive") == "Reactive"
+    ops = expand_ops(case)
 
     def fail(cls, i, detail, expected=None, observed=None):
         if len(fails) < 20:
             fails.append((cls, i, detail, expected, observed))
 
-    for i, (o, t) in enumerate(zip(case["ops"], trace)):
+    for j, (o, t) in enumerate(zip(ops, trace)):
+        i = o["src"]         # failures are located by the index of the operation in case["ops"]
         k = o["op"]
         out = t["out"]
         if t.get("err"):
             fail("exception_escaped", i, f"{k} raised {t['err']}")
+        if t.get("stopped") and not o.get("periodic"):
+            continue             # the rest of a composite operation that raised (reported above)
+        if t.get("stopped"):
+            fail("periodic_attendance_stopped", i, "the periodic attendance loop of the service ended although it was not asked to "
+                 "stop (or never reached its wait): from here on nothing is notified", "loop keeps attending", "loop ended")
+            continue
         attended = False
         must_attend = False
         if k == "advance":
-            now += o["ms"]
+            ms = t.get("adv_ms", o["ms"])
+            if o.get("periodic") and ms > 1000:
+                fail("periodic_attendance_interval", i, "the periodic attendance waits longer than the LDM's one-second clock "
+                     "resolution between two attendances", "<= 1000 ms", ms)
+            now += ms
         elif k == "reg_cons":
             if out == [0]:
                 reg.add(o["aid"])
@@ -308,28 +511,46 @@ def oracle(case, trace):
                      "nt": o["nt"], "mult": o["mult"], "since": now // 1000 * 1000, "last": None, "op": i}
                 live.append(u)
                 sub_cb[i] = next_cb
+                sub_op[i] = o
                 next_cb += 1
         elif k == "unsubscribe":
             # the identifier handed out for subscribe operation o["sub"]; identical requests share one identifier,
             # so it names every live subscription made with that very request
             same = []
+            collide = []
             if o["sub"] in sub_cb:
-                ident = sub_identity(case["ops"][o["sub"]])
-                same = [u for u in live if sub_identity(case["ops"][u["op"]]) == ident]
+                ident = req_identity(sub_op[o["sub"]])
+                same = [u for u in live if req_identity(sub_op[u["op"]]) == ident]
+                hid = hash_identity(sub_op[o["sub"]])
+                collide = [u for u in live if u not in same and hash_identity(sub_op[u["op"]]) == hid]
             if out == [0]:
-                if not same:
+                if not same and not collide:
                     fail("unsubscribe_of_nothing", i, "unsubscription of an identifier that names no live subscription succeeded")
                 for u in same:
                     live.remove(u)
                     dead_cbs[u["cb"]] = "unsubscribed"
+                gone = [u for u in collide if u["cb"] not in [x[1] for x in t["subs"]]]
+                if gone:
+                    # a DIFFERENT request (reference value -1 where this one has -2, or the reverse) was cancelled with it
+                    fail("unsubscribe_cancels_colliding_identifier", i, "the unsubscription also cancelled a subscription made with "
+                         "a different request: both requests were given the same subscription identifier", [u["cb"] for u in same],
+                         [u["cb"] for u in same + gone])
+                    for u in gone:
+                        live.remove(u)
+                        dead_cbs[u["cb"]] = "unsubscribed"
             elif same and o["aid"] in reg:
                 fail("unsubscribe_refused", i, "unsubscription of a live subscription by a registered consumer failed", [0], out)
         elif k == "add":
             store.append((nadd, record_of(o, now)))
             nadd += 1
             attended = bool(t["calls"])
-            if now - last_attend >= 500:
+            if reactive and now - last_attend >= 500:
                 attended = must_attend = True
+        elif k == "update":
+            if out == [0]:
+                if not any(p == o["k"] for p, _ in store):
+                    fail("update_of_missing_object", i, "update of an object that is not stored succeeded")
+                store[:] = [(p, dict(r, dataObject=message(o)) if p == o["k"] else r) for p, r in store]
         elif k == "del":
             if out == [0]:
                 store[:] = [(p, r) for p, r in store if p != o["k"]]
@@ -410,13 +631,19 @@ ADV = (0, 1, 100, 499, 500, 501, 999, 1000, 1000, 1001, 1500, 2000, 2500, 5000)
 TYPES = (2, 2, 1, 16)
 
 
-def gen_filter(rng):
+NTS_W = NTS + (60000, 60000, 3600000, 86400000)
+ADV_W = ADV + (60000, 60000, 3600000, 86400000, 10 ** 8)
+
+
+def gen_filter(rng, audit=False):
     def st():
         name = rng.choice(("cam", "denm", "vam"))
         path = rng.choice(("header.stationId", name + ".generationDeltaTime", name + ".speed", name + ".speed", name + ".extra.level",
                            "header.messageId", "header.nosuch"))
         op = rng.choice(c13.OPS[:6] + c13.OPS[:6] + c13.OPS)
         ref = rng.choice((0, 1, 2, 3, 5, 10, 50, 100, 16, "a", True)) if not path.endswith("stationId") else rng.choice((100, 105, 110, 120, 0))
+        if audit and rng.random() < 0.3:
+            ref = rng.choice((-1, -2, -1, -2, -3, False))
         return {"path": path, "op": op, "ref": ref}
     x = rng.random()
     if x < 0.4:
@@ -426,15 +653,74 @@ def gen_filter(rng):
     return {"s1": st(), "lop": rng.choice(("and", "or")), "s2": st()}
 
 
-def gen_case(rng, n):
+def _swap_collision(o):
+    """the same subscription request with the reference values -1 and -2 of its filter exchanged, or None"""
+    f = o.get("filter")
+    if not f:
+        return None
+    hit = [False]
+
+    def sw(st_):
+        if st_ is not None and not isinstance(st_["ref"], bool) and st_["ref"] in (-1, -2):
+            hit[0] = True
+            return dict(st_, ref=-3 - st_["ref"])
+        return st_
+    g = dict(f, s1=sw(f["s1"]), s2=sw(f["s2"]))
+    return dict(o, filter=g) if hit[0] else None
+
+
+def gen_case(rng, n, style="plain"):
+    """style "audit": the threaded service with its periodic attendance loop (a third of the cases), notification
+    intervals and clock advances up to a day, updates of stored objects, LDMFactory.subscribe_to_ldm, negative values
+    and reference values (incl. the pair -1 / -2, whose requests share a subscription identifier)"""
+    audit = style == "audit"
     t0 = T0_UTC_MS + rng.choice((0, 1, 500, 999, rng.randrange(1000)))
     ops = []
     g_reg = set()
     g_subs = []       # indices of subscribe ops that probably succeeded
+    g_types = {}      # k-th add -> type
     nadd = 0
     tok = 100
+    service = "Thread" if audit and rng.random() < 0.35 else "Reactive"
+    long_times = audit and rng.random() < 0.5
+    nts, advs = (NTS_W, ADV_W) if long_times else (NTS, ADV)
+    speeds = (0, 1, 2, 3, 10, -1, -2) if audit else (0, 1, 2, 3, 10)
+
+    def an_add():
+        nonlocal tok, nadd
+        tok += 1
+        o = {"op": "add", "typ": rng.choice(TYPES), "tok": tok, "gdt": rng.choice((0, 1, 5, 50, 100)),
+             "speed": rng.choice(speeds), "level": rng.choice((None, None, 1, 2, 3))}
+        if long_times:
+            o["val"] = 10 ** 9      # stored objects stay valid during a sequence (expiry is C12)
+        g_types[nadd] = o["typ"]
+        nadd += 1
+        return o
     for _ in range(n):
         x = rng.random()
+        if audit and len(ops) >= 3:
+            y = rng.random()
+            if y < 0.02:
+                ops.append({"op": "factory_sub", "own": rng.choice((101, 103, 105, 110, 0))})
+                g_reg.add(2)
+                g_subs.append(len(ops) - 1)
+                continue
+            if y < 0.08 and nadd:
+                k = rng.randrange(nadd)
+                tok += 1
+                ops.append({"op": "update", "k": k, "typ": g_types[k] if rng.random() < 0.9 else 1, "tok": tok,
+                            "gdt": rng.choice((0, 1, 5, 50, 100)), "speed": rng.choice(speeds), "level": rng.choice((None, 1, 2, 3))})
+                continue
+            if y < 0.12 and g_subs:
+                o = _swap_collision(ops[rng.choice(g_subs)])
+                if o is not None and o["aid"] in g_reg:
+                    ops.append(o)
+                    g_subs.append(len(ops) - 1)
+                    continue
+            if service == "Thread" and y < 0.30:
+                ticks = rng.choice((1, 1, 2, 2, 3, 4, 6, 10))
+                ops.append({"op": "periodic", "ticks": ticks, "adds": [an_add() if rng.random() < 0.4 else None for _ in range(ticks)]})
+                continue
         if len(ops) < 3 and x < 0.85:
             aid = rng.choice(AIDS)
             ops.append({"op": "reg_cons", "aid": aid, "perms": [aid]})
@@ -460,8 +746,8 @@ def gen_case(rng, n):
                  "orders": rng.choice((None, None, [], [{"name": "stationId", "desc": True}], [{"name": "speed", "desc": False}],
                                        [{"name": "speed", "desc": True}, {"name": "stationId", "desc": False}],
                                        [{"name": "level", "desc": False}, {"name": "generationDeltaTime", "desc": True}])),
-                 "order_bad": False, "filter": gen_filter(rng), "filter_bad": False,
-                 "nt": rng.choice(NTS), "mult": rng.choice(MULTS)}
+                 "order_bad": False, "filter": gen_filter(rng, audit), "filter_bad": False,
+                 "nt": rng.choice(nts), "mult": rng.choice(MULTS)}
             if not valid:
                 for _ in range(rng.choice((1, 1, 1, 2))):
                     which = rng.randrange(6)
@@ -477,8 +763,8 @@ def gen_case(rng, n):
                         o["nt"] = rng.choice((-1, NT_MAX + 1, -1000))
                     else:
                         o["mult"] = rng.choice((-1, 256, 1000))
-            elif g_subs and rng.random() < 0.08:
-                o = dict(ops[rng.choice(g_subs)])       # an identical request (shares the identifier)
+            elif g_subs and rng.random() < 0.08 and any(ops[i]["op"] == "subscribe" for i in g_subs):
+                o = dict(ops[rng.choice([i for i in g_subs if ops[i]["op"] == "subscribe"])])       # an identical request (shares the identifier)
             ops.append(o)
             if valid and o["aid"] in g_reg:
                 g_subs.append(len(ops) - 1)
@@ -489,17 +775,17 @@ def gen_case(rng, n):
             if sub in g_subs and aid in g_reg:
                 g_subs.remove(sub)
         elif x < 0.58:
-            tok += 1
-            ops.append({"op": "add", "typ": rng.choice(TYPES), "tok": tok, "gdt": rng.choice((0, 1, 5, 50, 100)),
-                        "speed": rng.choice((0, 1, 2, 3, 10)), "level": rng.choice((None, None, 1, 2, 3))})
-            nadd += 1
+            ops.append(an_add())
         elif x < 0.63:
             ops.append({"op": "del", "k": rng.randrange(-1, nadd + 1)})
         elif x < 0.85:
-            ops.append({"op": "advance", "ms": rng.choice(ADV)})
+            ops.append({"op": "advance", "ms": rng.choice(advs)})
         else:
             ops.append({"op": "attend"})
-    return {"t0_utc_ms": t0, "ops": ops}
+    case = {"t0_utc_ms": t0, "ops": ops}
+    if service != "Reactive":
+        case["service"] = service
+    return case
 
 
 def boundary_cases():
@@ -555,6 +841,77 @@ def boundary_cases():
     return cases
 
 
+def boundary_cases_audit(tier="quick"):
+    """audit round: the periodic attendance loop of the threaded service, LDMFactory.subscribe_to_ldm, notifications after
+    updates of stored objects, multiplicity at its limit 255 with 254 / 255 / 256 matching objects, notification intervals
+    of an hour and a day, subscription identifiers of requests that differ only in a reference value -1 / -2"""
+    t0 = T0_UTC_MS
+    cases = []
+    reg = [{"op": "reg_cons", "aid": 2, "perms": [2]}, {"op": "reg_cons", "aid": 16, "perms": [16]}]
+
+    def sub(aid=2, nt=1000, mult=1, types=(2,), flt=None, orders=None, **kw):
+        o = {"op": "subscribe", "aid": aid, "types": list(types), "prio": None, "orders": orders, "order_bad": False,
+             "filter": flt, "filter_bad": False, "nt": nt, "mult": mult}
+        o.update(kw)
+        return o
+
+    def add(tok, typ=2, speed=1, gdt=0, level=None):
+        return {"op": "add", "typ": typ, "tok": tok, "gdt": gdt, "speed": speed, "level": level, "val": 10 ** 9}
+
+    def upd(k, tok, typ=2, speed=1, gdt=0, level=None):
+        return {"op": "update", "k": k, "typ": typ, "tok": tok, "gdt": gdt, "speed": speed, "level": level}
+    att = {"op": "attend"}
+
+    def one(path, op, ref):
+        return {"s1": {"path": path, "op": op, "ref": ref}, "lop": None, "s2": None}
+    # a. periodic attendance (threaded service): every notification interval x clock phase; additions while the loop waits;
+    #    no reactive attendance on add; unsubscription / deregistration between two runs of the loop
+    for nt in (None, 0, 500, 1000, 1001, 2000, 3000):
+        for phase in (0, 400, 999):
+            cases.append({"t0_utc_ms": t0 + phase, "service": "Thread",
+                          "ops": reg + [sub(nt=nt), sub(aid=16, nt=1000, mult=2, types=(2, 1)), add(1),
+                                        {"op": "periodic", "ticks": 9, "adds": [None, add(2, typ=1), None, None, add(3), None, None, None, None]},
+                                        {"op": "unsubscribe", "aid": 2, "sub": 2}, {"op": "periodic", "ticks": 5},
+                                        {"op": "dereg_cons", "aid": 16}, add(4), {"op": "periodic", "ticks": 3}]})
+    cases.append({"t0_utc_ms": t0, "service": "Thread",
+                  "ops": reg + [sub(nt=0), add(1), {"op": "advance", "ms": 600}, add(2), {"op": "advance", "ms": 5000}, add(3),
+                                {"op": "periodic", "ticks": 1}, add(4), att, {"op": "periodic", "ticks": 2, "adds": [add(5), add(6)]}]})
+    # b. LDMFactory.subscribe_to_ldm: CAMs and VAMs of every other station, nothing of the own station, no DENM
+    for own in (101, 102, 0):
+        cases.append({"t0_utc_ms": t0, "ops": [{"op": "factory_sub", "own": own}, add(101), add(102, typ=16), add(103, typ=1), att,
+                                                {"op": "advance", "ms": 1000}, add(104), att, add(0 if own == 0 else 105, typ=16),
+                                                {"op": "advance", "ms": 1000}, att, {"op": "unsubscribe", "aid": 2, "sub": 0}, att,
+                                                {"op": "factory_sub", "own": own}, {"op": "advance", "ms": 1000}, att,
+                                                {"op": "dereg_cons", "aid": 2}, {"op": "advance", "ms": 1000}, att]})
+    # c. notifications follow updates of stored objects (nothing added or removed in between)
+    f = one("cam.speed", ">=", 2)
+    cases.append({"t0_utc_ms": t0, "ops": reg + [sub(nt=0, flt=f), sub(nt=0, orders=[{"name": "speed", "desc": True}]), add(1, speed=1), add(2, speed=1), att,
+                                                  upd(0, 11, speed=3), att, upd(1, 12, speed=5), att, upd(0, 13, speed=0), att,
+                                                  upd(1, 14, typ=1, speed=9), att, upd(5, 15, speed=9), att, upd(1, 16, speed=1, level=2), att,
+                                                  {"op": "del", "k": 0}, att, upd(0, 17, speed=7), att]})
+    # d. multiplicity at its limit: 253 .. 256 matching objects
+    n0 = 253 if tier == "quick" else 253
+    ops = reg + [sub(nt=0, mult=255), sub(nt=0, mult=254), sub(nt=0, mult=None, flt=one("cam.speed", "==", 7)), sub(aid=16, nt=0, mult=255, types=(2, 1))]
+    ops += [add(1000 + j, speed=7 if j % 50 == 0 else 1) for j in range(n0)] + [att]
+    for j in range(3):
+        ops += [add(2000 + j), att]
+    ops += [{"op": "del", "k": 5}, att, {"op": "del", "k": 6}, att, {"op": "del", "k": 7}, att, add(3000, typ=1), att]
+    cases.append({"t0_utc_ms": t0, "ops": ops})
+    # e. long notification intervals: due exactly after the interval, again one interval later, and after a long silence
+    for nt in (60000, 3600000, 86400000):
+        cases.append({"t0_utc_ms": t0 + 250, "ops": reg + [sub(nt=nt), sub(aid=16, nt=1000, types=(2,)), add(1), att,
+                                                            {"op": "advance", "ms": nt - 1000}, att, {"op": "advance", "ms": 1000}, att,
+                                                            {"op": "advance", "ms": 1000}, att, {"op": "advance", "ms": nt - 2000}, att,
+                                                            {"op": "advance", "ms": 1000}, att, {"op": "advance", "ms": 3 * nt + 500}, att,
+                                                            {"op": "advance", "ms": 500}, att, add(2), {"op": "advance", "ms": nt}, add(3)]})
+    # f. two different requests (reference values -1 / -2) and the unsubscription of one of them
+    for r1, r2 in ((-1, -2), (-2, -1), (-1, -3)):
+        cases.append({"t0_utc_ms": t0, "ops": reg + [sub(nt=0, flt=one("cam.speed", ">", r1)), sub(nt=0, flt=one("cam.speed", ">", r2)),
+                                                      add(1, speed=-2), add(2, speed=0), att, {"op": "unsubscribe", "aid": 2, "sub": 2}, att,
+                                                      add(3, speed=-1), att, {"op": "unsubscribe", "aid": 2, "sub": 3}, att]})
+    return cases
+
+
 # --------------------------------------------------------------------------------------------
 
 def known_classes(ctx):
@@ -567,11 +924,16 @@ def impl_failure_classes(case):
 
 def check_cases(ctx, cases, label):
     traces = [exec_impl(c) for c in cases]
-    flats = ctx.model.batch((1, encode_case(c)) for c in cases) if ctx.model.available else None
+    flats = None
+    if ctx.model.available:
+        with_model = [ci for ci, c in enumerate(cases) if model_applies(c)]
+        flats = dict(zip(with_model, ctx.model.batch((1, encode_case(cases[ci])) for ci in with_model)))
     for ci, (case, tr) in enumerate(zip(cases, traces)):
-        ctx.count(len(case["ops"]), label)
+        ctx.count(len(tr), label)
         for o in case["ops"]:
             ctx.dist["op_" + o["op"]] = ctx.dist.get("op_" + o["op"], 0) + 1
+        if case.get("service", "Reactive") != "Reactive":
+            ctx.dist["cases_service_" + case["service"]] = ctx.dist.get("cases_service_" + case["service"], 0) + 1
         fails = oracle(case, tr)
         reported = set()
         for (cls, i, detail, expected, observed) in fails:
@@ -591,10 +953,13 @@ def check_cases(ctx, cases, label):
             if t["calls"]:
                 ctx.nontriv((label, ci, ctx.evaluations, i))
                 ctx.dist["callbacks"] = ctx.dist.get("callbacks", 0) + len(t["calls"])
-        if flats is None:
+        if flats is None or ci not in flats:
+            if flats is not None:
+                ctx.dist["cases_without_model"] = ctx.dist.get("cases_without_model", 0) + 1
             continue
+        flat_ops = expand_ops(case)
         try:
-            mtr = decode_model(flats[ci], len(case["ops"]))
+            mtr = decode_model(flats[ci], len(flat_ops))
         except Exception as e:
             ctx.mismatch("model output decodes", {"case": case}, str(e), None)
             continue
@@ -608,7 +973,7 @@ def check_cases(ctx, cases, label):
             diff = [f for f in ("out", "calls", "subs", "conss", "store") if a[f] != bb[f]]
             if diff:
                 f = diff[0]
-                ctx.mismatch(f"LDM {f} after each operation = LdmSub.step", {"case": case, "op_index": i, "op": case["ops"][i]},
+                ctx.mismatch(f"LDM {f} after each operation = LdmSub.step", {"case": case, "op_index": flat_ops[i]["src"], "op": flat_ops[i]},
                              json.dumps(a[f])[:1000], json.dumps(bb[f])[:1000], f"first difference at operation {i} in field {f}")
                 break
     if cases:
@@ -633,7 +998,11 @@ def _shrink(case, i, cls):
 def run(ctx):
     ctx.rule = ("seeded operation sequences (register/deregister consumer, subscribe with all notification intervals None/0/1 ms..60 s, "
                 "multiplicities None/0..255, filters, orders and every kind of invalid field, unsubscribe, add, delete, virtual clock "
-                "advance, explicit attendance; 10-300 operations, 2-3 consumers with overlapping subscriptions, identical requests) on a "
+                "advance, explicit attendance; 10-300 operations, 2-3 consumers with overlapping subscriptions, identical requests; style "
+                "'audit': the threaded service (Thread / Event replaced, its periodic loop run round by round on the virtual clock with "
+                "additions while it waits), LDMFactory.subscribe_to_ldm, updates of stored objects, notification intervals and clock "
+                "advances up to a day, multiplicity 255 with 253..256 matching objects, negative values, requests that differ only in a "
+                "reference value -1 / -2) on a "
                 "Factory-built LDM (Dictionary back-end, reactive service) and on the extracted model; responses, callback invocations with "
                 "arguments, subscription list with last-notified times, consumer registry and store compared after every operation; "
                 "evaluations = operations executed; non-trivial = an operation during which callbacks were invoked")
@@ -644,11 +1013,16 @@ def run(ctx):
     for f in sorted(glob.glob(os.path.join(common.VERIF, "corpus", "C14", "*.json"))):
         check_cases(ctx, [json.load(open(f))], "corpus")
     check_cases(ctx, boundary_cases(), "boundary")
+    check_cases(ctx, boundary_cases_audit(ctx.tier), "boundary_audit")
     rng = ctx.rng
     plan = [(240, (10, 60)), (180, (60, 150)), (60, (150, 300))] if ctx.tier == "quick" else [(3000, (10, 60)), (2000, (60, 150)), (600, (150, 300))]
     for count, (lo, hi) in plan:
         for start in range(0, count, 40):
             check_cases(ctx, [gen_case(rng, rng.randrange(lo, hi + 1)) for _ in range(min(40, count - start))], f"seq_{lo}_{hi}")
+    plan = [(120, (10, 80)), (40, (80, 200))] if ctx.tier == "quick" else [(1600, (10, 80)), (600, (80, 300))]
+    for count, (lo, hi) in plan:
+        for start in range(0, count, 40):
+            check_cases(ctx, [gen_case(rng, rng.randrange(lo, hi + 1), "audit") for _ in range(min(40, count - start))], f"seq_audit_{lo}_{hi}")
     ctx.exhaustive = False
 
 
